@@ -62,6 +62,20 @@ class RecDict(Model):
 
     def __init__(self, rec):
         self.rec = rec
+        view = self
+
+        class _View(Model):
+            """items() / keys() / values() of the attribute dictionary: a snapshot list in definition order (additive, C06)"""
+
+            def __init__(self, what):
+                self.what = what
+
+            def vf_call(self, interp, args, kwargs):
+                f = view.rec.f
+                if self.what == "items":
+                    return PyList([(k, v) for k, v in f.items()])
+                return PyList(list(f.keys()) if self.what == "keys" else list(f.values()))
+        self.items, self.keys, self.values = _View("items"), _View("keys"), _View("values")
 
     def vf_contains(self, interp, key):
         return key in self.rec.f
@@ -732,6 +746,8 @@ class Interp:
                 return ci.name
             if attr in ci.methods:
                 return BoundMethod(obj, attr)
+            if attr == "__new__":
+                return FuncRef("builtin", "object.__new__")          # a class without its own __new__ (additive, C06): object.__new__(cls)
             cstate = getattr(self.ctx, "class_state", None)
             if cstate is not None and (ci.name, attr) in cstate:
                 return cstate[(ci.name, attr)]          # class-level mutable state declared by the contract (additive, C41)
